@@ -57,7 +57,7 @@ def configs(tier: str, seed: int):
     vals = subjref.alphabet(seed)
     cfgs = [{"kind": "subject", "scripts": s, "values": vals, "err": "plain"} for s in script_sets(tier)]
     cfgs.append({"kind": "subject", "scripts": [P, P, P], "values": vals, "err": "falsy"})
-    depth = 7 if tier == "quick" else 12
+    depth = 7 if tier == "quick" else 20
     return cfgs, [depth] * len(cfgs)
 
 
